@@ -275,6 +275,9 @@ const prelude = `(set-option :produce-models true)
 (declare-fun bitlenf (Int) Int)
 (declare-fun tdivf (Int Int) Int)
 (declare-fun tremf (Int Int) Int)
+(declare-fun rhef (Int Int) Int)
+(declare-fun cdivf (Int Int) Int)
+(declare-fun fdivf (Int Int) Int)
 (declare-fun mulf (Int Int) Int)
 (declare-fun strlen (Int) Int)
 (declare-fun uf1 (Int Int) Int)
@@ -328,8 +331,17 @@ func (c *Ctx) TDivRem(n, m Term) (Term, Term) {
 			q = Ite(Ge(n, "0"), Neg(qa), qa)
 		}
 		r = Ite(Ge(n, "0"), ra, Neg(ra))
-		q = c.Define("q", SInt, q)
-		r = c.Define("r", SInt, r)
+		if ufDiv {
+			// the quotient is ALSO the application tdivf(n, m): equal arguments then give equal
+			// quotients by congruence alone, whichever encoding the other occurrence used
+			qd, rd := q, r
+			q = c.Define("q", SInt, app("tdivf", n, m))
+			r = c.Define("r", SInt, app("tremf", n, m))
+			c.Assert(And(Eq(q, qd), Eq(r, rd)))
+		} else {
+			q = c.Define("q", SInt, q)
+			r = c.Define("r", SInt, r)
+		}
 	} else {
 		// uninterpreted function applications (so that equal arguments give equal results by
 		// congruence) constrained by the defining property of truncated division
@@ -342,6 +354,24 @@ func (c *Ctx) TDivRem(n, m Term) (Term, Term) {
 			Implies(Ge(n, "0"), Ge(r, "0")),
 			Implies(Le(n, "0"), Le(r, "0")),
 		)))
+		// sign and magnitude of a truncated quotient (true of truncated division; spares the
+		// solver the nonlinear step from n = q*m + r)
+		c.Assert(Implies(Not(Eq(m, "0")), And(
+			Implies(Or(And(Ge(n, "0"), Gt(m, "0")), And(Le(n, "0"), Lt(m, "0"))), Ge(q, "0")),
+			Implies(Or(And(Ge(n, "0"), Lt(m, "0")), And(Le(n, "0"), Gt(m, "0"))), Le(q, "0")),
+			Le(Abs(q), Abs(n)),
+		)))
+		// bridge to the numeral encoding: a divisor that is only *known to equal* one of the
+		// scaling constants (e.g. the value of OneDec()) must give the same quotient as the
+		// literal constant does (true of truncated division; saves the solver a nonlinear
+		// uniqueness argument)
+		for _, k := range []string{"1000000000000000000", "1000000000000000000000000000000000000"} {
+			qa := app("div", Abs(n), k)
+			ra := app("mod", Abs(n), k)
+			c.Assert(Implies(Eq(m, k), And(
+				Eq(q, Ite(Ge(n, "0"), qa, Neg(qa))),
+				Eq(r, Ite(Ge(n, "0"), ra, Neg(ra))))))
+		}
 	}
 	c.memo[key] = q
 	c.memo[key+"#r"] = r
@@ -355,13 +385,32 @@ func (c *Ctx) TRem(n, m Term) Term { _, r := c.TDivRem(n, m); return r }
 func (c *Ctx) CDiv(n, m Term) Term {
 	q, r := c.TDivRem(n, m)
 	pos := Or(And(Gt(r, "0"), Gt(m, "0")), And(Lt(r, "0"), Lt(m, "0")))
-	return Ite(pos, Add(q, "1"), q)
+	return c.ufNamed("cdivf", n, m, Ite(pos, Add(q, "1"), q))
 }
 
 func (c *Ctx) FDiv(n, m Term) Term {
 	q, r := c.TDivRem(n, m)
 	neg := Or(And(Gt(r, "0"), Lt(m, "0")), And(Lt(r, "0"), Gt(m, "0")))
-	return Ite(neg, Sub(q, "1"), q)
+	return c.ufNamed("fdivf", n, m, Ite(neg, Sub(q, "1"), q))
+}
+
+// ufDiv: rounding functions are named as applications of uninterpreted functions (defined by
+// their arithmetic meaning), so that two occurrences with provably equal arguments are equal by
+// congruence, without the solver having to redo the arithmetic. GOVC_UFDIV=0 turns it off.
+var ufDiv = os.Getenv("GOVC_UFDIV") != "0"
+
+func (c *Ctx) ufNamed(f string, n, m, def Term) Term {
+	if !ufDiv {
+		return def
+	}
+	key := f + ":" + n + "|" + m
+	if t, ok := c.memo[key]; ok {
+		return t
+	}
+	h := c.Define("h", SInt, app(f, n, m))
+	c.Assert(Eq(h, def))
+	c.memo[key] = h
+	return h
 }
 
 // FMod: result has the sign of m (Euclidean for m>0).
@@ -376,7 +425,7 @@ func (c *Ctx) RHE(n, m Term) Term {
 	up := Or(Gt(ar2, Abs(m)), And(Eq(ar2, Abs(m)), Not(Eq(app("mod", q, "2"), "0"))))
 	// moving away from zero by one
 	away := Ite(Or(And(Ge(n, "0"), Gt(m, "0")), And(Le(n, "0"), Lt(m, "0"))), Add(q, "1"), Sub(q, "1"))
-	return Ite(up, away, q)
+	return c.ufNamed("rhef", n, m, Ite(up, away, q))
 }
 
 // BitLen term with axioms for the thresholds used in the code base.
@@ -421,8 +470,12 @@ type SolveResult struct {
 }
 
 func runSolver(s Solver, file string, timeoutS int) (string, string, float64) {
+	return runSolverCtx(context.Background(), s, file, timeoutS)
+}
+
+func runSolverCtx(parent context.Context, s Solver, file string, timeoutS int) (string, string, float64) {
 	t0 := time.Now()
-	ctx, cancel := context.WithTimeout(context.Background(), time.Duration(timeoutS+2)*time.Second)
+	ctx, cancel := context.WithTimeout(parent, time.Duration(timeoutS+2)*time.Second)
 	defer cancel()
 	argv := s.Argv(file, timeoutS)
 	cmd := exec.CommandContext(ctx, argv[0], argv[1:]...)
@@ -481,16 +534,47 @@ func Solve(query string, scratchDir, name string, timeoutS int, getValues []stri
 		st, m string
 		el    float64
 	}
-	ch := make(chan r, len(solvers))
-	for _, s := range solvers {
+	isReach := strings.Contains(name, "reach") || strings.HasSuffix(name, ".continues") || strings.Contains(name, "vacuity") || strings.HasSuffix(name, ".before")
+	racers := solvers
+	if isReach {
+		// reachability guards are inconclusive when undecided: a short second opinion only
+		racers = solvers[1:]
+		if timeoutS > 3 {
+			timeoutS = 3
+		}
+	}
+	n := len(racers)
+	ch := make(chan r, n+1)
+	// the losers of the race are killed as soon as one solver answers
+	raceCtx, raceCancel := context.WithCancel(context.Background())
+	defer raceCancel()
+	for _, s := range racers {
 		s := s
 		go func() {
-			st, m, el := runSolver(s, file, timeoutS)
+			st, m, el := runSolverCtx(raceCtx, s, file, timeoutS)
 			ch <- r{s, st, m, el}
 		}()
 	}
+	// linear abstraction (products of symbolic factors as an uninterpreted function) joins the
+	// race: only `unsat` is meaningful there. Not for reachability queries, where only `sat` helps.
+	if os.Getenv("GOVC_ABS") != "0" && !isReach {
+		if aq, ok := absNonlinear(q); ok {
+			afile := strings.TrimSuffix(file, ".smt2") + ".abs.smt2"
+			if err := os.WriteFile(afile, []byte(aq), 0o644); err == nil {
+				n++
+				abs := Solver{Name: solvers[0].Name + "/linear-abstraction", Argv: solvers[0].Argv}
+				go func() {
+					st, m, el := runSolverCtx(raceCtx, abs, afile, timeoutS)
+					if st != "unsat" {
+						st = "unknown"
+					}
+					ch <- r{abs, st, m, el}
+				}()
+			}
+		}
+	}
 	total := el
-	for range solvers {
+	for k := 0; k < n; k++ {
 		x := <-ch
 		res.Tried = append(res.Tried, fmt.Sprintf("%s:%s:%.2fs", x.s.Name, x.st, x.el))
 		if x.st != "unknown" && x.st != "error" && res.Status == "" {
@@ -540,4 +624,162 @@ func (c *Ctx) EMod(n, m Term) Term {
 	}
 	r := c.TRem(n, m)
 	return Ite(Lt(r, "0"), Add(r, Abs(m)), r)
+}
+
+// ---- linear abstraction of a query ----
+// absNonlinear replaces every product of two or more non-numeral factors by nested applications
+// of the uninterpreted function mulf (factors sorted, so the abstraction is commutative). The
+// abstracted query has more models than the original, hence `unsat` carries over; `sat` and
+// `unknown` mean nothing. It decides obligations whose proof is congruence over compositions of
+// rounding functions without the solver wandering into nonlinear arithmetic.
+type sx struct {
+	atom string
+	list []*sx
+}
+
+func parseSx(src string) []*sx {
+	var toks []string
+	i := 0
+	for i < len(src) {
+		c := src[i]
+		switch {
+		case c == '(' || c == ')':
+			toks = append(toks, string(c))
+			i++
+		case c == ' ' || c == '\n' || c == '\t' || c == '\r':
+			i++
+		case c == ';':
+			for i < len(src) && src[i] != '\n' {
+				i++
+			}
+		case c == '"':
+			j := i + 1
+			for j < len(src) && src[j] != '"' {
+				j++
+			}
+			toks = append(toks, src[i:j+1])
+			i = j + 1
+		case c == '|':
+			j := i + 1
+			for j < len(src) && src[j] != '|' {
+				j++
+			}
+			toks = append(toks, src[i:j+1])
+			i = j + 1
+		default:
+			j := i
+			for j < len(src) && !strings.ContainsRune("() \n\t\r", rune(src[j])) {
+				j++
+			}
+			toks = append(toks, src[i:j])
+			i = j
+		}
+	}
+	pos := 0
+	var rd func() *sx
+	rd = func() *sx {
+		t := toks[pos]
+		pos++
+		if t == "(" {
+			n := &sx{list: []*sx{}}
+			for pos < len(toks) && toks[pos] != ")" {
+				n.list = append(n.list, rd())
+			}
+			pos++
+			return n
+		}
+		return &sx{atom: t}
+	}
+	var out []*sx
+	for pos < len(toks) {
+		out = append(out, rd())
+	}
+	return out
+}
+
+func (n *sx) String() string {
+	var b strings.Builder
+	n.write(&b)
+	return b.String()
+}
+
+func (n *sx) write(b *strings.Builder) {
+	if n.list == nil {
+		b.WriteString(n.atom)
+		return
+	}
+	b.WriteByte('(')
+	for i, c := range n.list {
+		if i > 0 {
+			b.WriteByte(' ')
+		}
+		c.write(b)
+	}
+	b.WriteByte(')')
+}
+
+func (n *sx) isNum() bool {
+	if n.list == nil {
+		if n.atom == "" {
+			return false
+		}
+		for _, r := range n.atom {
+			if r < '0' || r > '9' {
+				return false
+			}
+		}
+		return true
+	}
+	return len(n.list) == 2 && n.list[0].atom == "-" && n.list[0].list == nil && n.list[1].isNum()
+}
+
+func absRewrite(n *sx) *sx {
+	if n.list == nil {
+		return n
+	}
+	out := &sx{list: make([]*sx, len(n.list))}
+	for i, c := range n.list {
+		out.list[i] = absRewrite(c)
+	}
+	if len(out.list) >= 3 && out.list[0].list == nil && out.list[0].atom == "*" {
+		var nums, oth []*sx
+		for _, c := range out.list[1:] {
+			if c.isNum() {
+				nums = append(nums, c)
+			} else {
+				oth = append(oth, c)
+			}
+		}
+		if len(oth) >= 2 {
+			sort.Slice(oth, func(i, j int) bool { return oth[i].String() < oth[j].String() })
+			t := oth[0]
+			for _, o := range oth[1:] {
+				t = &sx{list: []*sx{{atom: "mulf"}, t, o}}
+			}
+			if len(nums) > 0 {
+				l := []*sx{{atom: "*"}}
+				l = append(l, nums...)
+				l = append(l, t)
+				return &sx{list: l}
+			}
+			return t
+		}
+	}
+	return out
+}
+
+func absNonlinear(q string) (res string, changed bool) {
+	defer func() {
+		if r := recover(); r != nil {
+			res, changed = "", false
+		}
+	}()
+	var b strings.Builder
+	for _, n := range parseSx(q) {
+		m := absRewrite(n)
+		b.WriteString(m.String())
+		b.WriteByte('\n')
+	}
+	s := b.String()
+	return s, strings.Contains(q, "(* ")
 }
